@@ -507,6 +507,15 @@ func stateConcurrent(e *Env) {
 	u := universe{nicks: []string{"me", "a", "b"}, chans: []string{"#x", "#y"}}
 	nTasks := g.Range(2, 4)
 	st := state.NewTracker("me")
+	// a process may run several clients, each with a tracker of its own: callers
+	// of different trackers share nothing as far as the interface says, so every
+	// tracker's history stands for itself (and nothing they do may meet in
+	// memory: the memory-model tier watches that)
+	var st2 state.Tracker
+	if g.Pct(25) {
+		st2 = state.NewTracker("me")
+		e.S.Count("probe.two-trackers-in-one-process")
+	}
 	// a little initial state so that operations interact
 	pre := []tOp{{"NewChannel", []string{"#x"}}, {"Associate", []string{"#x", "me"}}, {"NewNick", []string{"a"}}, {"Associate", []string{"#x", "a"}}}
 	npre := g.Intn(len(pre) + 1)
@@ -530,16 +539,23 @@ func stateConcurrent(e *Env) {
 	m0 := newModel("me")
 	for _, op := range pre[:npre] {
 		applyOp(st, op)
+		if st2 != nil {
+			applyOp(st2, op)
+		}
 		applyOp(m0, op)
 	}
 	uniq := 0
-	var ops []porcupine.Operation
+	var ops, ops2 []porcupine.Operation
 	type planned struct {
 		ops []tOp
 		use []bool // format the returned snapshot in the calling task
 	}
 	plans := make([]planned, nTasks)
 	shadow := m0.clone() // only for biasing generation
+	second := make([]bool, nTasks) // tasks that call the second tracker
+	for t := 1; t < nTasks && st2 != nil; t += 2 {
+		second[t] = true
+	}
 	for t := 0; t < nTasks; t++ {
 		k := g.Range(3, 12)
 		if nTasks == 4 && k > 8 {
@@ -589,10 +605,18 @@ func stateConcurrent(e *Env) {
 		t := t
 		e.S.Spawn(fmt.Sprintf("caller%d", t), func() {
 			for i, op := range plans[t].ops {
+				var mine state.Tracker = st
+				if second[t] {
+					mine = st2
+				}
 				call := e.S.Stamp()
-				out, val := applyOp(st, op)
+				out, val := applyOp(mine, op)
 				ret := e.S.Stamp()
-				ops = append(ops, porcupine.Operation{ClientId: t, Input: op, Call: int64(call), Output: out, Return: int64(ret)})
+				if second[t] {
+					ops2 = append(ops2, porcupine.Operation{ClientId: t, Input: op, Call: int64(call), Output: out, Return: int64(ret)})
+				} else {
+					ops = append(ops, porcupine.Operation{ClientId: t, Input: op, Call: int64(call), Output: out, Return: int64(ret)})
+				}
 				if plans[t].use[i] {
 					// a snapshot belongs to its caller: using it takes no lock and
 					// must not meet anything another task touches (what this is worth
@@ -622,6 +646,10 @@ func stateConcurrent(e *Env) {
 		},
 	}
 	res := porcupine.CheckOperationsTimeout(model, ops, 20*time.Second)
+	if res == porcupine.Ok && len(ops2) > 0 {
+		ops = ops2
+		res = porcupine.CheckOperationsTimeout(model, ops, 20*time.Second)
+	}
 	e.Check()
 	total := 0
 	for _, p := range plans {
